@@ -7,6 +7,12 @@ require (
 	github.com/cenkalti/backoff/v4 v4.3.0
 )
 
-require github.com/pkg/errors v0.9.1 // indirect
+require (
+	github.com/aperturerobotics/json-iterator-lite v1.0.0 // indirect
+	github.com/aperturerobotics/protobuf-go-lite v0.8.0 // indirect
+	github.com/pkg/errors v0.9.1 // indirect
+	github.com/sirupsen/logrus v1.9.3 // indirect
+	golang.org/x/sys v0.13.0 // indirect
+)
 
 replace github.com/aperturerobotics/util => /repo
